@@ -116,6 +116,40 @@ pub fn inject_error(files: &Files, rng: &mut Rng) -> (&'static str, Files) {
     (phase, f)
 }
 
+/// A variant of `files` in which every byte offset keeps its meaning but line / UTF-16
+/// column structure changes: "é" (2 bytes, 1 unit) → "ee" (2 bytes, 2 units), one ";\n" → "; ",
+/// one "  " → "\n ". An error that survives such an edit keeps its byte span while its
+/// editor range moves.
+pub fn same_bytes_twist(files: &Files, rng: &mut Rng) -> Files {
+    let mut f = files.clone();
+    let paths: Vec<String> = f.keys().cloned().collect();
+    let p = rng.pick(&paths).clone();
+    let t = f.get_mut(&p).unwrap();
+    let mut ops: Vec<u8> = vec![0, 1, 2];
+    rng.shuffle(&mut ops);
+    let n = rng.range(1, 3);
+    for op in ops.into_iter().take(n) {
+        match op {
+            0 => *t = t.replace('é', "ee"),
+            1 => {
+                let idx: Vec<usize> = t.match_indices(";\n").map(|(i, _)| i).collect();
+                if !idx.is_empty() {
+                    let i = *rng.pick(&idx);
+                    t.replace_range(i..i + 2, "; ");
+                }
+            }
+            _ => {
+                let idx: Vec<usize> = t.match_indices("  ").map(|(i, _)| i).collect();
+                if !idx.is_empty() {
+                    let i = *rng.pick(&idx);
+                    t.replace_range(i..i + 2, "\n ");
+                }
+            }
+        }
+    }
+    f
+}
+
 pub fn char_boundary(t: &str, mut i: usize) -> usize {
     i = i.min(t.len());
     while i > 0 && !t.is_char_boundary(i) {
@@ -422,7 +456,7 @@ pub fn plan(seed: u64, prop: &str, run: u64, sem: Sem) -> Plan {
     }];
     let ntargets = wl.range(1, 6);
     for _ in 0..ntargets {
-        let k = wl.weighted(&[3, 4, 2, 2]);
+        let k = wl.weighted(&[3, 4, 2, 2, 3]);
         let t = match k {
             0 => {
                 let l = layout(&mut wl, &sw);
@@ -453,9 +487,18 @@ pub fn plan(seed: u64, prop: &str, run: u64, sem: Sem) -> Plan {
                     kind: "other_program",
                 }
             }
-            _ => {
+            3 => {
                 let back = targets[0].clone();
                 Target { kind: "back_to_base", ..back }
+            }
+            _ => {
+                // byte-offset preserving re-layout of the latest state (often an erroneous one)
+                let prev = targets.last().unwrap().files.clone();
+                Target {
+                    files: same_bytes_twist(&prev, &mut wl),
+                    program: None,
+                    kind: "same_bytes_twist",
+                }
             }
         };
         targets.push(t);
